@@ -42,16 +42,33 @@ def _spk(kind, inner):
         return b"\xa9\x14" + _hashes.hash160(redeem) + b"\x87"
     if kind == "v2_unknown":
         return b"\x52\x02\xaa\xbb"
+    if kind == "v0_len21":                      # version 0 with a program that is neither 20 nor 32 bytes: WITNESS_PROGRAM_WRONG_LENGTH
+        return b"\x00\x15" + b"\x33" * 21
+    if kind == "v1_len31":                      # version 1 but not 32 bytes: an unknown witness program, not taproot
+        return b"\x51\x1f" + b"\x33" * 31
+    if kind == "v16_len40":
+        return b"\x60\x28" + b"\x33" * 40
+    if kind == "v1_len41":                      # 43 bytes: too long to be a witness program at all -- a bare script pushing 41 bytes after OP_1
+        return b"\x51\x29" + b"\x33" * 41
+    if kind == "p2sh_v0_len21":
+        return b"\xa9\x14" + _hashes.hash160(b"\x00\x15" + b"\x33" * 21) + b"\x87"
+    if kind == "anchor":
+        return b"\x51\x02\x4e\x73"
+    if kind == "v1_len32_pre_taproot":          # none of the flag sets here carries TAPROOT: the program is an unknown one (anyone can spend)
+        return b"\x51\x20" + b"\x33" * 32
     raise ValueError(kind)
+
+
+_ODD = ("v2_unknown", "v0_len21", "v1_len31", "v16_len40", "v1_len41", "p2sh_v0_len21", "anchor", "v1_len32_pre_taproot")
 
 
 def _params(tier):
     out = []
     inners = ["add_equal", "true", "drop_true", "long_push", "if_else"]
     for fs in _FLAGSETS:
-        for kind in ("bare", "p2sh", "p2wsh", "p2sh_p2wsh", "v2_unknown"):
+        for kind in ("bare", "p2sh", "p2wsh", "p2sh_p2wsh") + _ODD:
             for inner in inners:
-                if kind == "v2_unknown" and inner != "true":
+                if kind in _ODD and inner != "true":
                     continue
                 for sig_shape in (("inner_args",), ("inner_args", "extra_front"), ("nop_front",)):
                     for wit_shape in ("none", "args", "args_extra"):
@@ -62,7 +79,7 @@ def _params(tier):
 
 
 @ob("C08", "verify_input_dispatch_vs_core", quick=_params("quick"), thorough=_params("thorough"),
-    bound="one input spending a bare / P2SH / P2WSH / P2SH-P2WSH / unknown-version witness output whose inner script is one of five signature-free scripts (one of them 525 bytes long); "
+    bound="one input spending a bare / P2SH / P2WSH / P2SH-P2WSH output, or an odd witness program (unknown version, version 0 with 21 bytes bare and P2SH-wrapped, version 1 with 31 bytes, version 16 with 40 bytes, a 43-byte look-alike, pay-to-anchor), whose inner script is one of five signature-free scripts (one of them 525 bytes long); "
           "the scriptSig is assembled from pushes of symbolic 1-byte arguments (plus, per shape, an extra leading push or a leading NOP) and, where the kind needs it, the push of the redeem script; "
           "the witness is absent / symbolic 1-byte arguments + witness script / the same with an extra symbolic element; three flag sets (consensus, standard policy, pre-segwit)",
     stubs=["sha256 / ripemd160 of symbolic data are uninterpreted (scripts are concrete, so their hashes are the real ones)"],
@@ -91,6 +108,8 @@ def verify_input_dispatch(ex, flags, kind, inner, sig, wit):
         parts.append(core.push_of(inner_b))
     if kind == "p2sh_p2wsh":
         parts.append(core.push_of(b"\x00\x20" + _hashes.sha256(inner_b)))
+    if kind == "p2sh_v0_len21":
+        parts.append(core.push_of(b"\x00\x15" + b"\x33" * 21))
     script_sig = b"".join(parts) if parts else b""
     # witness
     wstack = []
